@@ -3,7 +3,7 @@ import MsqProofs.Lemmas.TRest2
 # T-parse for SHOW COLUMNS, CREATE TABLE … AS, the new classes together, and the union of all fragments (C03 / C01)
 
 * `showColumns_ok` — `SHOW COLUMNS FROM t, … [WHERE e]` (tables and filter of the larger query fragment `TQ2`);
-* `createAs_ok` — `CREATE TABLE t AS <query of FragQ2>`;
+* `sel_ok`, `createAs_ok` — `CREATE TABLE t AS <query>`: a query of `FragQ2`, or `[WITH …]` in front of a query of `FragQ`;
 * `rest_ok` — every statement of `FragRest` through `pStatement`;
 * `any_ok` — every statement of `FragAny` (queries `FragQ2` ∪ data-change statements `TDM.FragStmt` ∪ CREATE TABLE `TD.FragCreate` ∪
   `FragRest`) through `pStatement`, at the common fuel bound `20 * size + 16`.
@@ -47,12 +47,36 @@ theorem showColumns_ok (fr : List FromTable) (wh : Option Expr) (hfr : TQ2.fromO
     simp only [h1, h2, List.singleton_append, h3]
 
 /-! ### CREATE TABLE … AS -/
-theorem createAs_ok (t : TableName) (q : Query) (ht : TDM.tblOKD t = true) (hq : TQ2.FragQ2 d q = true)
-    (rest : List Tok) (hr : stopsAny d rest = true) (f : Nat) (hf : 20 * sizeL (toksCreateAs d t q) + 9 ≤ f) :
+/-- a query where `_parse_select_statement` itself looks for the WITH clause -/
+theorem sel_ok (q : Query) (hq : selOK d q = true) (rest : List Tok) (hr : stopsAny d rest = true) (f : Nat)
+    (hf : 20 * sizeL (toksSel d q) + 16 ≤ f) : pSelectStmt d f none (toksSel d q ++ rest) = .ok (q, rest) := by
+  by_cases h2 : TQ2.FragQ2 d q = true
+  · simp only [toksSel, h2, if_true] at hf ⊢
+    exact C03.tquery2 d q h2 rest (sa_q2 hr) f (by omega)
+  · have h1 : TDM.FragStmt d (.select q) = true := by simpa [selOK, h2] using hq
+    simp only [toksSel, h2, Bool.false_eq_true, if_false] at hf ⊢
+    have := C03.twith_query_select d q h1 rest (sa_stmt hr) f hf
+    simpa [TDM.toksStmt, TDM.toksStmtG] using this
+theorem toksSel_head (q : Query) (hq : selOK d q = true) : ∃ k x, toksSel d q = opTok k :: x ∧ (k = "SELECT" ∨ k = "WITH") := by
+  by_cases h2 : TQ2.FragQ2 d q = true
+  · obtain ⟨x, hx⟩ := TQ2.toksQ2_head TQ2.chOK_noX q h2
+    exact ⟨"SELECT", x, by simp only [toksSel, h2, if_true, hx], Or.inl rfl⟩
+  · have h1 : TDM.FragStmt d (.select q) = true := by simpa [selOK, h2] using hq
+    simp only [TDM.FragStmt, Bool.and_eq_true] at h1
+    obtain ⟨x, hx⟩ := TQ.toksQ_head TQ.chOK_noX (TDM.stripW q) h1.2
+    rw [TDM.toksQ_stripW] at hx
+    simp only [toksSel, h2, Bool.false_eq_true, if_false, TDM.toksStmt, TDM.toksStmtG]
+    rcases hw : TDM.withsOf q with _ | ⟨_ | ⟨w, ws⟩⟩
+    · exact ⟨"SELECT", x, by simp only [TDM.toksWiths, List.nil_append, hx], Or.inl rfl⟩
+    · exact ⟨"SELECT", x, by simp only [TDM.toksWiths, List.nil_append, hx], Or.inl rfl⟩
+    · exact ⟨"WITH", _, by simp only [TDM.toksWiths, List.cons_append]; rfl, Or.inr rfl⟩
+
+theorem createAs_ok (t : TableName) (q : Query) (ht : TDM.tblOKD t = true) (hq : selOK d q = true)
+    (rest : List Tok) (hr : stopsAny d rest = true) (f : Nat) (hf : 20 * sizeL (toksCreateAs d t q) + 16 ≤ f) :
     pStatement d f (toksCreateAs d t q ++ rest) = .ok (.createTableAs t q, rest) := by
   simp only [toksCreateAs, sizeL_cons, size_opTok] at hf
-  have h1 : pTblName (tbl t :: opTok "AS" :: (TQ2.toksQ2 d noX q ++ rest)) = .ok (t, _) := TDM.tblName_ok t ht _ (by kw_simp)
-  have h2 := C03.tquery2 d q hq rest (sa_q2 hr) f (by omega)
+  have h1 : pTblName (tbl t :: opTok "AS" :: (toksSel d q ++ rest)) = .ok (t, _) := TDM.tblName_ok t ht _ (by kw_simp)
+  have h2 := sel_ok q hq rest hr f (by omega)
   unfold pStatement toksCreateAs
   kw_simp
   unfold pCreateTable
@@ -96,7 +120,7 @@ theorem rest_ok (s : Stmt) (hs : FragRest d s = true) (rest : List Tok) (hr : st
     exact showColumns_ok fr wh hs.1 hs.2 rest hr f hf
   | createTableAs t q =>
     simp only [FragRest, Bool.and_eq_true] at hs
-    exact createAs_ok t q hs.1 hs.2 rest hr f (by simp only [toksRest] at hf; omega)
+    exact createAs_ok t q hs.1 hs.2 rest hr f hf
   | _ => simp [FragRest] at hs
 
 /-! ### the union -/
@@ -110,11 +134,12 @@ theorem any_ok (s : Stmt) (hs : FragAny d s = true) (rest : List Tok) (hr : stop
   cases s with
   | select q =>
     simp only [toksAny] at hf ⊢
-    by_cases hq : TQ2.FragQ2 d q = true
-    · simp only [hq, if_true] at hf ⊢
-      exact C03.tquery2_statement d q hq rest (sa_q2 hr) f (by omega)
-    · simp only [hq, Bool.false_eq_true, if_false] at hf ⊢
-      have : TDM.FragStmt d (.select q) = true := by simpa [FragAny, hq, FragRest] using hs
+    have hq : selOK d q = true := by simpa [FragAny, FragRest, selOK] using hs
+    by_cases h2 : TQ2.FragQ2 d q = true
+    · simp only [toksSel, h2, if_true] at hf ⊢
+      exact C03.tquery2_statement d q h2 rest (sa_q2 hr) f (by omega)
+    · simp only [toksSel, h2, Bool.false_eq_true, if_false] at hf ⊢
+      have : TDM.FragStmt d (.select q) = true := by simpa [selOK, h2] using hq
       exact hD _ this hf
   | createTable c =>
     have hc : TD.FragCreate d c = true := by simpa [FragAny, TDM.FragStmt, FragRest] using hs
